@@ -36,7 +36,8 @@ STATE_MEASURE = 'distinct (transport kind, sequence of processed line kinds, out
 PROBES = ['cut-inside-line', 'cut-between-cr-and-lf', 'several-lines-one-read',
           'authenticated-tcp', 'authenticated-unix-agree', 'authenticated-unix-error',
           'exhausted-closed', 'junk-closed', 'cookie-auth-completed', 'agree-without-ok',
-          'bytes-after-final-line-same-read', 'keyring-with-other-entries']
+          'bytes-after-final-line-same-read', 'keyring-with-other-entries',
+          'custom-preference-order', 'home-unset']
 COMPONENTS = {
     'real': ['txdbus.authentication.ClientAuthenticator (pass-through tracing subclass on the '
              'documented IDBusAuthenticator.handleAuthMessage hook)',
@@ -79,6 +80,7 @@ ALPHABET = [
     b'REJECTED KERBEROS_V4 SKEY',                       # 25
     b' OK ' + GUID,                                     # 26 leading blank: junk
     b'ERROR',                                           # 27
+    b'OK 0123456789ABCDEF0123456789abcDEF',             # 28 upper-case hex digits are hex digits
 ]
 PREF = [b'EXTERNAL', b'DBUS_COOKIE_SHA1', b'ANONYMOUS']
 KNOWN_CMDS = (b'REJECTED', b'OK', b'DATA', b'ERROR', b'AGREE_UNIX_FD')
@@ -115,6 +117,7 @@ class Monitor:
         self.first = True
         self.binary = 0
         self.kinds = []
+        self.pref = PREF
 
     def problem(self, clause, key, msg):
         self.problems.append((clause, key, msg))
@@ -134,7 +137,7 @@ class Monitor:
             self.fdans = True
             self.fd_answer_line = len(self.processed)
         elif cmd in (b'REJECTED', b'ERROR'):
-            if len(self.offered) >= len(PREF):
+            if len(self.offered) >= len(self.pref):
                 self.must_close = 'mechanisms exhausted'
         if cmd not in KNOWN_CMDS:
             self.must_close = 'line outside the protocol'
@@ -166,7 +169,7 @@ class Monitor:
                          'client wrote %r after %s' % (line, self.must_close))
         if cmd == b'AUTH':
             mech = arg.split(b' ')[0]
-            nxt = PREF[len(self.offered)] if len(self.offered) < len(PREF) else None
+            nxt = self.pref[len(self.offered)] if len(self.offered) < len(self.pref) else None
             if mech in self.offered:
                 self.problem('C07/mech-twice', mech.decode(), 'mechanism %r offered twice' % mech)
             elif mech != nxt:
@@ -203,8 +206,11 @@ class Monitor:
                          'client wrote %r' % line)
 
 
-def make_authenticator(mon):
+def make_authenticator(mon, pref_order=None):
     class Traced(authentication.ClientAuthenticator):
+        if pref_order is not None:
+            preference = list(pref_order)      # the documented way to change the order
+
         def handleAuthMessage(self, line):
             mon.processing(bytes(line))
             return authentication.ClientAuthenticator.handleAuthMessage(self, line)
@@ -235,7 +241,14 @@ def scenario(ctx):
     factory = t_client.DBusClientFactory()
     connected = Obs(sim, 'connect').watch(factory.getConnection())
     proto = sim.call(node, factory.buildProtocol, None)
-    proto.authenticator = make_authenticator(mon)
+    pref = None
+    if 'lines' not in pre and ds.flag(0.25):
+        pref = ds.shuffle(PREF)
+        if ds.flag(0.3):
+            pref = pref[:2]
+        sim.probe('custom-preference-order')
+    mon.pref = pref or PREF
+    proto.authenticator = make_authenticator(mon, pref)
     conn = net.Connection(sim, 'c1', node, None, unix=unix)
     conn.a.taps.append(mon.wrote)
     pipe_sc = conn.pipes[1]
@@ -261,6 +274,12 @@ def scenario(ctx):
         server = RefSaslServer(accept, agree_fd=agree, keyring=kr if kstate != 'missing' else None,
                                urandom=lambda n: bytes((i * 37 + 11) & 0xff for i in range(n)))
         server.messy_keyring = bool(pre.get('messy', ds.flag(0.5)))
+        if ds.flag(0.3):
+            server.guid = b'00112233445566778899AABBCCDDEEFF'
+        if ds.flag(0.2):
+            # no HOME in the environment: '~' resolves through the user database
+            os.environ.pop('HOME', None)
+            sim.probe('home-unset')
         if server.messy_keyring and b'DBUS_COOKIE_SHA1' in accept:
             sim.probe('keyring-with-other-entries')
         conn.attach(proto, server)
@@ -272,8 +291,8 @@ def scenario(ctx):
             raise Violation('C07/not-closed', mon.must_close,
                             'after %s the client left the connection open' % mon.must_close)
         cookie_usable = (kstate == 'ok')
-        can = any(m in accept for m in (b'EXTERNAL', b'ANONYMOUS')) or \
-            (b'DBUS_COOKIE_SHA1' in accept and cookie_usable)
+        can = any(m in accept and m in mon.pref for m in (b'EXTERNAL', b'ANONYMOUS')) or \
+            (b'DBUS_COOKIE_SHA1' in accept and b'DBUS_COOKIE_SHA1' in mon.pref and cookie_usable)
         authed = bool(connected.fired and connected.fired[0][0] == 'ok')
         sim.state((unix, tuple(a.decode() for a in accept), agree, kstate, authed))
         if can:
@@ -281,7 +300,7 @@ def scenario(ctx):
                 mech = [m.decode() for m in accept]
                 raise Violation(
                     'C07/liveness',
-                    'via %s fd=%s' % (next(m.decode() for m in PREF if m in accept and
+                    'via %s fd=%s' % (next(m.decode() for m in mon.pref if m in accept and
                                              (m != b'DBUS_COOKIE_SHA1' or cookie_usable)),
                                         ('agree' if agree else 'error') if unix else 'n/a'),
                     'reference server accepting %r (fd answer %s, keyring %s, unix=%s): '
@@ -305,7 +324,7 @@ def scenario(ctx):
         script = [ALPHABET[i] for i in pre['lines']]
     else:
         n = 1 + ds.choose(20)
-        w = [4, 4, 2, 3, 3, 1, 1, 1, 1, 1, 2, 1, 2, 1, 1, 1, 1, 1, 1, 1, 0.7, 0.7, 0.7, 0.7, 1, 1, 0.7, 1]
+        w = [4, 4, 2, 3, 3, 1, 1, 1, 1, 1, 2, 1, 2, 1, 1, 1, 1, 1, 1, 1, 0.7, 0.7, 0.7, 0.7, 1, 1, 0.7, 1, 1.5]
         script = [ALPHABET[ds.weighted(w)] for _ in range(n)]
     ctx.config.update(script=[s.decode('latin1') for s in script])
     todo = list(script)
